@@ -1,7 +1,8 @@
 CHECKS["C10"] = dict(
     engine="E3",
-    overlay_dirs=SIM, overlay=SIM_ACCESS,
+    overlay_dirs={**SIM, "verifx/c10k": "harness/x/c10k"}, overlay={**SIM_ACCESS, "protocol/comm/zz_verif_access.go": "harness/access/comm/zz_verif_access.go"},
     units=[unit("c10", "./verifx/sim", "^TestC10", shards=(16, 16), timeout=(900, 3400)),
+           unit("c10kauri", "./verifx/c10k", "^TestC10Kauri", shards=(8, 16), timeout=(900, 3400)),
            unit("c10fuzz", "./verifx/sim", "^$", tiers=("thorough",), fuzz="FuzzC10Wire", fuzztime={"quick": 20, "thorough": 240}, fuzzworkers=16, timeout=(600, 900))],
     rule=("a live replica (all real handlers on its event loop; chained/simple/fast; ECDSA/EdDSA/BLS; cache on/off) is first "
           "driven 0..12 FIFO generations into a reachable state, then 1..5 rapid-generated wire messages are handed to the "
@@ -17,7 +18,14 @@ CHECKS["C10"] = dict(
           "high TC, committed block, lock, last voted view, commit count) is unchanged. Non-trivial = the message reaches "
           "beyond the first handler line; distinct = the message sequence. Thorough tier adds native coverage-guided fuzzing "
           "(FuzzC10Wire): arbitrary bytes decoded as Proposal / PartialCert / SyncInfo / TimeoutMsg / BlockHash, seeded with the "
-          "marshalled honest messages of a short run, through the same handlers; oracle: no panic, state never moves backwards."),
+          "marshalled honest messages of a short run, through the same handlers; oracle: no panic, state never moves backwards. "
+          "Kauri service (TestC10KauriContributions): a real tree node (n in {4,7,10}, branch factor 2..3, any position, signature "
+          "cache 0/1/10, connected or not yet) receives 1..10 events: contribution messages with claimed id in {member, 0, 77, 2^32-1}, "
+          "view in {current, current+1, 0, 2^64-1} and 17 signature variants (the 12 hostile ones above plus valid-over-another-block, "
+          "member signature under an unknown id, valid one / some / quorum, repeated signer, quorum plus unknown signer), mixed with "
+          "the node's own aggregation rounds for blocks of rising view, wait-timer expiries and the connect event. Oracle: no panic; "
+          "a contribution in which nothing verifies leaves (aggregate, senders, sent flag, view, messages sent to the parent, "
+          "certificates announced) unchanged."),
     assumptions=["the gorums transport and protobuf decoding are not exercised here (protobuf guarantees well-typed messages; byte-level decode fuzzing is part of C12)",
-                 "Kauri's contribution handler is exercised by the C09 tree unit (nil / garbage / foreign contributions)"],
+                 "tree-contribution messages are delivered to a stand-alone tree node (real Kauri module, authority, block chain and event loop; mock sender), not to the full replica stack"],
 )
